@@ -337,6 +337,8 @@ class C10(PropertyCheck):
         "QipVerif.C10.export_valid_partial",
         "QipVerif.C10.export_refuses",
         "QipVerif.C10.export_refuses_classical",
+        "QipVerif.C10.definitions_sound",
+        "QipVerif.C10.base_names_are_qelib1",
         "QipVerif.C10.export_measure_counterexample",
         "QipVerif.C10.export_exponent_counterexample",
     ]
